@@ -1,7 +1,7 @@
 PROP = dict(
     harness="c05", level="exploration",
-    quick=dict(cases=12000, max_size=60, workers=16),
-    thorough=dict(cases=240000, max_size=100, workers=16, timeout=3000),
+    quick=dict(cases=24000, max_size=60, workers=16),
+    thorough=dict(cases=600000, max_size=100, workers=16, timeout=7200),
     rule=("a case is one Compiler program (decoded from integers into a tree of straight-line ops / diamonds / counted loops / "
           "two-entry cycles / annotated jump tables / early returns over 1..200 GP values of 32/64 bits, 0..40 xmm values, 0..10 mask "
           "values, 0..4 stack slots, local/global constants, 0..11 scalar arguments in registers and on the stack, 0..200 extra pressure "
@@ -33,7 +33,7 @@ META = dict(
                 "checked for successful allocation and structural validity of the allocated code. Not a proof: absence of failures in the "
                 "explored programs, minus the listed known findings whose trigger shapes are excluded."),
     level_note=("Trusts the harness interpreter (~250 lines, cross-checked op by op against the CPU at the start of every run), the host CPU and "
-                "hostexec/msc. Thirteen genuine defects found while building it are listed as known findings; their trigger shapes are removed from "
+                "hostexec/msc. Fourteen genuine defects found while building it are listed as known findings; their trigger shapes are removed from "
                 "the generated programs, which reduces coverage of exactly those shapes (32-bit read-write views of 64-bit registers under spilling, "
                 "cmpxchg, and r,0, or [mem],-1, 8/16-bit xor r,r, bt with register offset, kmovw r32,k, empty jump-table cases, a64 list loads under pressure)."),
     design_ref="DESIGN.md section 4, C05; section 7 rows 11 and 14",
